@@ -39,12 +39,20 @@ def parse(abbr: str, config: Config):
     # may produce multiple nodes
     # 2. Transform every resolved node
     # In case if config contains text, temporary remove it from config
+    has_text = 'text' in config.user_config
     if text:
         config.user_config['text'] = None
 
-    snippets(abbr, config)
-    walk(abbr, transform, config)
-    config.user_config['text'] = text
+    try:
+        snippets(abbr, config)
+        walk(abbr, transform, config)
+    finally:
+        # Leave caller's config exactly as it was, also when resolving fails
+        if has_text:
+            config.user_config['text'] = text
+        else:
+            config.user_config.pop('text', None)
+
     return abbr
 
 def stringify(abbr: Abbreviation, config: Config):
